@@ -81,6 +81,10 @@ def run_property(prop, tier):
         jobs = []
         if os.path.exists(reg):
             lines = [l for l in open(reg).read().split('\n') if l.strip() and not l.startswith('#')]
+
+            def relevant_kind(kind):
+                return any(prop in cs or prop in ss for cs, ss in KEYS.get(kind, {}).values()) or any(prop in ps for ps in ASSERT.get(kind, {}).values())
+            lines = [l for l in lines if relevant_kind(l.split(' ', 1)[0])]
             if lines:
                 jobs.append(('regress', None, lines))
         for fam, nq, nt in cfg['families']:
